@@ -118,7 +118,9 @@ static long slot_of(void* addr) {
   return (long)((off - offsetof(struct kbq, _queue)) / sizeof(struct entry));
 }
 _Bool mon_probes_on, mon_log_on, mon_scan_weak;       /* which recordings a harness needs (constants: unused recordings vanish from the formula) */
+unsigned e_pair_loads;       /* loads of _head/_tail seen so far (for the snapshot split of committed_int) */
 static void mon_load(void* addr, uint64_t v, int o) {
+  if (addr == (void*)&mon_q->_tail || addr == (void*)&mon_q->_head) e_pair_loads++;
   if (mon_probes_on) { long s = slot_of(addr); if (s >= 0) { if (!XV_IS_ACQUIRE(o)) mon_scan_weak = 1; if (mon_nprobe < NPROBE) mon_probe[mon_nprobe] = (uint64_t)s; mon_nprobe++; } }
   if (!mon_log_on) return;
   if (addr == (void*)&mon_q->_tail) { if (!mon_tail_loads) mon_tail_first = v; mon_tail_last = v; mon_tail_last_clock = xv_clock; mon_tail_loads++; }
@@ -416,6 +418,12 @@ static void env_own_cas(void* addr, uint64_t e, uint64_t d, _Bool ok) {
 }
 void xv_env(void) {
   if (!e_on) return;
+#ifdef XV_ATOMIC_SNAPSHOT
+  /* run committed_int: the (tail, head) pair committed() reads is taken as an atomic snapshot: no environment step between the two loads.
+   * The split-snapshot case (an environment step between them) is run committed_int_split: obligation kbq.push.commit_split_snapshot,
+   * a known finding (F12b) - see known_findings.json. */
+  if (e_pair_loads == 1) return;
+#endif
   struct kbq* q = e_q;
   if (e_arbitrary) {            /* validation runs: no rely beyond "head and tail hold indices inside the array" */
     q->_head = nondet_u64(); q->_tail = nondet_u64(); XV_ASSUME(MI_get(q->_head) < q->_queue_size && MI_get(q->_tail) < q->_queue_size);
@@ -453,7 +461,7 @@ static void committed_case(uint64_t k, uint64_t S) {
   for (unsigned i = 0; i < NMAX; i++) q._queue[i].value = nondet_u64();
   if (e_taken) XV_ASSUME(q._queue[e_idx].value != e_item); else q._queue[e_idx].value = e_item;
   marked_idx tail_old = MI_make(P, totag);
-  e_on = 1;
+  e_on = 1; e_pair_loads = 0;
   _Bool r = kbq_committed(&q, tail_old, e_item, e_idx);
   e_on = 0;
   XV_OBL("kbq.committed.withdrawn", !(e_taken && e_withdrawn));
@@ -461,7 +469,11 @@ static void committed_case(uint64_t k, uint64_t S) {
     /* true only if a consumer took the value, or the item is in its slot, its segment is inside the circular region [head, tail], and no head
      * advance that missed the item can still succeed */
     _Bool in_region = RING_OFF(e_hs, e_Ps, S) <= RING_OFF(e_hs, e_ts, S);
+#ifdef XV_ATOMIC_SNAPSHOT
     XV_OBL("kbq.push.commit", e_taken || (!e_withdrawn && q._queue[e_idx].value == e_item && in_region && !(e_Ps == e_hs && e_can_adv)));
+#else
+    XV_OBL("kbq.push.commit_split_snapshot", e_taken || (!e_withdrawn && q._queue[e_idx].value == e_item && in_region && !(e_Ps == e_hs && e_can_adv)));
+#endif
     if (e_taken) XV_CANARY("committed.taken"); else if (e_Ps == e_hs) XV_CANARY("committed.at_head"); else XV_CANARY("committed.inside");
   } else {
     /* false only after withdrawing the item itself: it was not delivered to anybody */
